@@ -229,6 +229,12 @@ inductive Op where
   | newSplitIx (c : Nat)
   | get (ix : Nat) (key : PyKey)
   | set (ix : Nat) (key : PyKey) (d : Data)
+  /-- `indexer.reset_chemicals(chemicals)`: the data follow their CAS numbers into another chemicals object -/
+  | resetChem (ix : Nat) (c : Nat)
+  /-- `indexer.copy()` -/
+  | copyIx (ix : Nat)
+  /-- `chemicals.get_index(IDs)` (never memoised) -/
+  | getIndex (c : Nat) (key : PyKey)
   /-- `left.copy_like(right)` -/
   | copyLike (left right : Nat)
   /-- `left.mix_from([left, right])` -/
@@ -244,6 +250,8 @@ inductive Out where
   | data (rows : List Row)
   /-- phases (or phase) and data of the receiver after `copy_like` / `mix_from` -/
   | state (ix : Indexer)
+  /-- positions returned by `get_index` for a sequence -/
+  | index (es : List Ent)
   | err (e : Err)
   deriving Repr, Inhabited, DecidableEq
 
@@ -413,6 +421,57 @@ def writeIx (c : Chem) (ix : Indexer) (v : MIx) (ids : HKey) (d : Data) : List R
     | .error e => (setMFail c ix.data v ids d, .err e)
     | .ok data' => (data', .data data')
 
+/-- `reset_chemicals`: every non-zero entry goes to the position `chemicals.index(CAS)` of the new object. -/
+def remapInto (c : Chem) : List (String × Rat) → Row → Except Err Row
+  | [], acc => .ok acc
+  | (cas, v) :: t, acc =>
+    if v = 0 then remapInto c t acc else
+    match alookup cas c.index with
+    | some (.pos i) => remapInto c t (setAt acc i v)
+    | some (.grp _) => .error .typeError
+    | none => .error .undefinedAlias
+
+def remapRows (c : Chem) (cas : List String) : List Row → Except Err (List Row)
+  | [] => .ok []
+  | r :: t =>
+    match remapInto c (cas.zip r) (zeroRow c.size), remapRows c cas t with
+    | .ok r', .ok t' => .ok (r' :: t')
+    | .error e, _ => .error e
+    | _, .error e => .error e
+
+/-- `dct[i]` for one element of the sequence handed to `get_index` / `indices`. -/
+def indexItem (c : Chem) : Item → Except Err Ent
+  | .leaf (.str s) => c.lookup s
+  | .leaf .ell => .error .undefinedAlias
+  | .leaf (.deep h) => .error (if h then .undefinedAlias else .typeError)
+  | .tup l => .error (if l.any Leaf.unhashable then .typeError else .undefinedAlias)
+  | .lst _ => .error .typeError
+
+def indexItems (c : Chem) : List Item → Except Err (List Ent)
+  | [] => .ok []
+  | it :: t =>
+    match indexItem c it with
+    | .error e => .error e
+    | .ok e =>
+      match indexItems c t with
+      | .ok es => .ok (e :: es)
+      | .error e' => .error e'
+
+/-- `chemicals.get_index(IDs)`: a string, the ellipsis (a slice), or a sequence. -/
+def getIndexOut (c : Chem) : PyKey → Out
+  | .leaf (.str s) => match c.lookup s with | .ok e => .pos e | .error e => .err e
+  | .leaf .ell => .ok
+  | .leaf (.deep _) => .err .typeError
+  | .tup l => match indexItems c l with | .ok es => .index es | .error e => .err e
+  | .lst l => match indexItems c l with | .ok es => .index es | .error e => .err e
+
+/-- Answer of `reset_chemicals` for an indexer and the target chemicals. -/
+def resetOut (ix : Indexer) (cas : List String) (c' : Nat) (new : Chem) : Option Indexer × Out :=
+  if ix.split then (none, .err .typeError) else
+  match remapRows new cas ix.data with
+  | .ok rows => (some { ix with chem := c', data := rows }, .state { ix with chem := c', data := rows })
+  | .error e => (none, .err e)
+
 /-- The chemicals as the mass indexers see them: `group_compositions` are the weight compositions. -/
 def massChem (c : Chem) : Chem := { c with comps := c.wcomps }
 
@@ -542,6 +601,24 @@ def World.step (w : World) : Op → World × Out
         | (.error e, s', mc') => (w.putCaches ix s' mc', .err e)
         | (.ok (v, ids), s', mc') =>
           ((w.putCaches ix s' mc').setData i ix (writeIx s.chem ix v ids d).1, (writeIx s.chem ix v ids d).2)
+  | .resetChem i c' =>
+    match w.ixs[i]? with
+    | none => (w, .err .indexError)
+    | some ix =>
+      match w.chems[ix.chem]?, w.chems[c']? with
+      | some s, some s' =>
+        match resetOut ix s.cas c' s'.chem with
+        | (some ix', o) => (w.putIx i ix', o)
+        | (none, o) => (w, o)
+      | _, _ => (w, .err .indexError)
+  | .copyIx i =>
+    match w.ixs[i]? with
+    | none => (w, .err .indexError)
+    | some ix => ({ w with ixs := w.ixs ++ [ix] }, .state ix)
+  | .getIndex c key =>
+    match w.chems[c]? with
+    | none => (w, .err .indexError)
+    | some s => (w, getIndexOut s.chem key)
   | .copyLike l r => w.transfer l r false
   | .mixFrom l r => w.transfer l r true
 
@@ -686,6 +763,24 @@ def PWorld.step (p : PWorld) : Op → PWorld × Out
         match resolveIxP chem ix.phases key with
         | .error e => (p, .err e)
         | .ok (v, ids) => (p.setData i ix (writeIx chem ix v ids d).1, (writeIx chem ix v ids d).2)
+  | .resetChem i c' =>
+    match p.ixs[i]? with
+    | none => (p, .err .indexError)
+    | some ix =>
+      match p.chems[ix.chem]?, p.chems[c']? with
+      | some s, some s' =>
+        match resetOut ix s.2 c' s'.1 with
+        | (some ix', o) => (p.putIx i ix', o)
+        | (none, o) => (p, o)
+      | _, _ => (p, .err .indexError)
+  | .copyIx i =>
+    match p.ixs[i]? with
+    | none => (p, .err .indexError)
+    | some ix => ({ p with ixs := p.ixs ++ [ix] }, .state ix)
+  | .getIndex c key =>
+    match p.chems[c]? with
+    | none => (p, .err .indexError)
+    | some s => (p, getIndexOut s.1 key)
   | .copyLike l r => p.transfer l r false
   | .mixFrom l r => p.transfer l r true
 
